@@ -11,7 +11,7 @@ namespace RnaVerif.SecStr
 structure ElemNums where
   /-- (5' first, 5' last, 3' first, 3' last) -/
   stems : List (Nat × Nat × Nat × Nat)
-  /-- (first, last, kind) kind 5 = 5' tail, 3 = 3' tail, 0 = plain -/
+  /-- (first, last, kind) kind 5 = 5' tail, 3 = 3' tail, 0 = plain, 53 = both tails (no base pairs) -/
   singles : List (Nat × Nat × Nat)
   hairpins : List (Nat × Nat)
   loops : List (List (Nat × Nat))
@@ -19,7 +19,7 @@ deriving Repr
 
 def Elements.nums (e : Elements) : ElemNums :=
   { stems := e.stems.map (fun s => (s.s5.first, s.s5.last, s.s3.first, s.s3.last)),
-    singles := e.singles.map (fun (s, k) => (s.first, s.last, match k with | .five => 5 | .three => 3 | .plain => 0)),
+    singles := e.singles.map (fun (s, k) => (s.first, s.last, match k with | .five => 5 | .three => 3 | .plain => 0 | .both => 53)),
     hairpins := e.hairpins.map (fun s => (s.first, s.last)),
     loops := e.loops.map (fun l => l.map (fun s => (s.first, s.last))) }
 
@@ -57,7 +57,7 @@ def specLoops (es : List Entry) (el : ElemNums) : Bool :=
 
 /-- interiors of the strands that carry unpaired nucleotides: [lo, hi] inclusive ranges -/
 def interiors (el : ElemNums) : List (Nat × Nat) :=
-  el.singles.map (fun (f, l, k) => if k == 5 then (f, l - 1) else if k == 3 then (f + 1, l) else (f + 1, l - 1)) ++
+  el.singles.map (fun (f, l, k) => if k == 53 then (f, l) else if k == 5 then (f, l - 1) else if k == 3 then (f + 1, l) else (f + 1, l - 1)) ++
   el.hairpins.map (fun (f, l) => (f + 1, l - 1)) ++
   el.loops.flatten.map (fun (f, l) => (f + 1, l - 1))
 
